@@ -49,6 +49,10 @@ def build_harness(bins=None):
     env = dict(os.environ, CARGO_NET_OFFLINE="true")
     t0 = time.time()
     p = subprocess.run(cmd, cwd=HARNESS, env=env, stdout=subprocess.PIPE, stderr=subprocess.STDOUT, text=True)
+    if p.returncode != 0 and "signal:" in p.stdout:
+        # rustc itself was killed (seen under heavy load: SIGABRT / SIGKILL); the build is incremental, try once more with fewer jobs
+        log("[build] rustc died (%s); retrying with -j 4" % p.stdout[p.stdout.index("signal:"):][:40])
+        p = subprocess.run(cmd + ["-j", "4"], cwd=HARNESS, env=env, stdout=subprocess.PIPE, stderr=subprocess.STDOUT, text=True)
     if p.returncode != 0:
         log(p.stdout[-6000:])
         raise ToolError("harness build failed")
